@@ -14,7 +14,7 @@ from fonts import report_payload
 
 PROP = 'C18'
 VARIANTS = ['asan-direct']
-RULE = ('Hypothesis: synthesised Feat/Sill/name tables (see module docstring) and the shipped fonts; histories of 1..40 operations over up to 6 live feature-value objects. '
+RULE = ('Hypothesis: synthesised Feat/Sill/name tables (see module docstring) and the shipped fonts; histories of 1..40 operations over up to 6 live feature-value objects (from for_lang, clone, or gr_featureval_clone(NULL) = unbound, all zeros until a set binds it). '
         'Oracle: per-object dict; set succeeds iff v <= largest setting value (any uint16 if the feature has no settings); after success get == v and every other feature unchanged, '
         'after failure nothing changed; for_lang = defaults overridden by in-range Sill entries of known features, same for space- and zero-padded tags, defaults for unknown tags; '
         'clone == source; labels = name-table strings (exact language record if present), equal across encodings after transcoding, NUL-terminated, length consistent. '
